@@ -238,6 +238,46 @@ let spans_cmd = function
   | [lo; hi; v] -> pb (spans_ordered (to_nat lo) (to_nat hi) (to_value v))
   | _ -> failwith "spans args"
 
+(* (runscript fuel (r p) (((r p) ((r p) ...)) ...)) -> (fin (st v p) ((r p) ...))   log oldest first *)
+let to_key = function L [r; p] -> (to_nat r, to_nat p) | _ -> failwith "key"
+let pkey (r, p) = "(" ^ pn r ^ " " ^ pn p ^ ")"
+let runscript = function
+  | [fuel; start; scr] ->
+    let scr = to_list (function L [k; cs] -> (to_key k, to_list to_key cs) | _ -> failwith "scr") scr in
+    let (s, fin) = run_script scr (to_nat fuel) (to_key start) in
+    let ((st, v), p) = s.cur in
+    "(" ^ pb fin ^ " (" ^ pb st ^ " " ^ pn v ^ " " ^ pn p ^ ") " ^ plist pkey (List.rev s.log) ^ ")"
+  | _ -> failwith "runscript args"
+
+(* ---- C15: trees with identities ---- *)
+let rec to_node = function
+  | L [A "l"; i] -> Leaf (to_nat i)
+  | L [A "c"; i; ch] -> Cont (to_nat i, to_list to_node ch)
+  | L [A "o"; i; ch] -> Obj (to_nat i, to_list to_node ch)
+  | _ -> failwith "node"
+let rec to_tnode = function
+  | L [A "l"; i] -> TLeaf (to_nat i)
+  | L [A "c"; i; ch] | L [A "o"; i; ch] -> TCont (to_nat i, to_list to_tnode ch)
+  | _ -> failwith "tnode"
+let rec node_size = function Leaf _ -> 1 | Cont (_, l) | Obj (_, l) -> 1 + List.fold_left (fun a x -> a + node_size x) 0 l
+let visit_cmd = function
+  | [t] ->
+    let n = to_node t in
+    let fuel = nat_of_int (node_size n + 2) in
+    let m = (match visit_loop fuel [n] [] [] with Some (o, _) -> plist pn o | None -> "fuel") in
+    let sp = plist pn (fst (dfs_list [n] [])) in
+    "(" ^ m ^ " " ^ sp ^ ")"
+  | _ -> failwith "visit args"
+let pev (((p, f), c), fin) = "(" ^ pn p ^ " " ^ pn f ^ " " ^ pn c ^ " " ^ pb fin ^ ")"
+let traverse_cmd = function
+  | [t] ->
+    let n = to_tnode t in
+    let fuel = nat_of_int (2 * node_size (to_node t) + 4) in
+    let m = (match traverse_loop fuel [TEnter (O, O, n)] [] [] with Some o -> plist pev o | None -> "fuel") in
+    let sp = plist pev (fst (ev O O n [])) in
+    "(" ^ m ^ " " ^ sp ^ ")"
+  | _ -> failwith "traverse args"
+
 (* flags of every node, preorder *)
 let rec children = function
   | Seq es | Choice es | Skip es | Longest es -> es
@@ -259,6 +299,9 @@ let dispatch = function
   | L (A "runs" :: args) -> runs args
   | L (A "flags" :: args) -> flags_cmd args
   | L (A "spans" :: args) -> spans_cmd args
+  | L (A "runscript" :: args) -> runscript args
+  | L (A "visit" :: args) -> visit_cmd args
+  | L (A "traverse" :: args) -> traverse_cmd args
   | _ -> failwith "unknown command"
 
 let () =
